@@ -345,6 +345,15 @@ def r_forest_validators(model, rep):
     # parent pointer is set (for real variants) before validation, so that uid/arch alignment is checked against it
     ps = [ev for ev in cx.events if ev.kind == "store" and ev.target == ("attr", var, "parent") and cx.is_self(ev.value)]
     ok = bool(ps) and bool(v) and ps[0].seq < v[0].seq
+    if ok:
+        # ... for real variants: whatever attribute the "is this a Variant?" test probes, Variant objects have it and the
+        # top-level container does not
+        va = set(model.cls("composeinfo.Variant").init_attrs(model))
+        ca = set(model.cls("composeinfo.Variants").init_attrs(model))
+        for g in ps[0].guards:
+            for x in T.walk(g[0]):
+                if x[0] == "call" and x[1] == ("global", "hasattr") and len(x[2]) == 2 and cx.is_self(x[2][0]) and x[2][1][0] == "const":
+                    ok = ok and g[1] is True and x[2][1][1] in va and x[2][1][1] not in ca
     rep.ob("R-FOREST-VALIDATORS", "VariantBase.add:parent-set-before-validate", ok, site=cx.site(f.node),
            msg="" if ok else "the child's parent pointer must be set before it is validated (uid / arch alignment)")
     # a refusal is a refusal: whatever the handler that restores the parent pointer does, it raises again
